@@ -3,4 +3,4 @@ From JV Require Import Base.Bytes Base.Dec Model.Wire Gen.LimitsWiringGen Model.
 Extraction Language OCaml.
 Extraction "../modelrun/gen/reqlimit_model.ml" Byte.to_N Byte.of_N print_N digits_val
   ws_session ws_processed http_result http_status http_reject_body too_big_request_frame internal_error_body
-  ws_pipeline_session ws_pipeline_replies.
+  ws_pipeline_session ws_pipeline_replies ws_frag_session ws_read.
